@@ -31,13 +31,13 @@ def document(layout, K=1, fix=None, crit=False):
         cst = cst[:pos] + ptxt + cst[pos:]
         sep = ',\n      ' if layout == 'multi' else ', '
         sett = (' [\n      ' + sep.join(cst) + '\n    ]') if layout == 'multi' else (' [' + sep.join(cst) + ']')
-        parts = ['  id int' + sett + '\n  other text\n', "  Note: 'tn'\n", '  indexes {\n    id [unique]\n  }\n']
+        parts = ['  id int' + sett + '\n  other text unique pk\n', "  Note: 'tn'\n", '  indexes {\n    id [unique]\n  }\n']
         tp = ''.join('  ' + k + ': ' + docs.q_double(val) + '\n' for k, val in tprops)
         parts = parts[:a['tpos']] + ([tp] if tp else []) + parts[a['tpos']:]
         doc = 'Table t {\n' + ''.join(parts) + '}\n'
         exp_table = ('table', 'public', 't', None, None, 'tn', None, tuple(tprops),
                      (('col', 'id', ('str', 'int'), True, False, False, False, ('int', 5), 'cn', None, tuple(cprops)),
-                      ('col', 'other', ('str', 'text'), False, False, False, False, ('none',), '', None, ())),
+                      ('col', 'other', ('str', 'text'), True, True, False, False, ('none',), '', None, ())),
                      (('idx', (('col', 'id'),), None, True, None, False, '', None),))
         return doc, (None, (), (exp_table,), (), (), ()), bool(cprops or tprops)
 
@@ -100,6 +100,38 @@ def document(layout, K=1, fix=None, crit=False):
     return Harness(body, args, describe=lambda a: {'document': build(a)[0]}, bounds={'layout': layout, 'K': K, 'keys': KEYS}, fixed=fix)
 
 
+def file_routes(K=1):
+    """the option given together with a Path or an open text file (I/O stubbed as in C12) works like with a string"""
+    args = [('has', 'bool'), ('route', IntRange(1, 2))] + hole_args('v', K, VAL)
+
+    def body(a):
+        import pydbml.parser.parser as pp_mod
+        from harness.c12 import _routes
+        v = text_of(a, 'v', K)
+        doc = "Table t {\n  id int [pk" + ((", k: " + docs.q_single(v)) if a['has'] else '') + "]\n" + (("  tk: " + docs.q_single(v) + "\n") if a['has'] else '') + "}\n"
+        calls = []
+        try:
+            rts = _routes(doc, calls, allow_properties=True)
+            try:
+                ref = rts[0][1]()
+                db = rts[a['route']][1]()
+            except Exception:
+                return 'document rejected although the option is enabled'
+        finally:
+            if 'open' in pp_mod.__dict__:
+                del pp_mod.open
+        reached()
+        if db.allow_properties is not True:
+            return 'database built from a file source does not have the option enabled'
+        if content(db) != content(ref):
+            return 'file source and string source give different results with the option enabled'
+        if a['has'] and (db.tables[0].properties != {'tk': v} or db.tables[0].columns[0].properties != {'k': v}):
+            return 'properties not stored when the source is a file'
+        return ''
+
+    return Harness(body, args, describe=lambda a: dict(a), bounds={'K': K})
+
+
 def api_flag(K=1):
     """objects carrying properties inside a database built through the API: rendered exactly when the flag is on"""
     args = [('flag0', 'bool')] + hole_args('v', K, VAL)
@@ -147,5 +179,6 @@ def instances(tier):
                         'timeout': T1, 'native_limit': 80})
     out.append({'name': 'document/one/crit/K2', 'factory': 'document', 'params': {'layout': 'one', 'K': 2, 'fix': dict(fixes[1], tp=1, cp=1), 'crit': True},
                 'timeout': T1, 'native_limit': 80})
+    out.append({'name': 'file_routes', 'factory': 'file_routes', 'params': {'K': 1}, 'timeout': T1, 'native_limit': 60})
     out.append({'name': 'api_flag', 'factory': 'api_flag', 'params': {'K': 1 if quick else 2}, 'timeout': T1, 'native_limit': 60})
     return out
